@@ -110,6 +110,17 @@ class SerWorld:
             return f"text {text!r}: deserialize yields {vals!r}"
         if not same_value(vals[0], value):
             return f"text {text!r}: deserialize yields {vals[0]!r}"
+        # ... and in the middle of a longer text / a longer value list (a part of a Tupl never starts at position 0): the start position
+        # is where reading and writing begin, the count returned is relative to it
+        for pre in ("0g", "7"):
+            st, d = self.meth(comb, "deserialize", env, pre + text + "~~", len(pre))
+            if st != "ok":
+                return f"text {text!r} placed at offset {len(pre)} (after {pre!r}): deserialize raises {d}"
+            if d is None or d[0] != len(text) or not (isinstance(d[1], list) and len(d[1]) == 1 and same_value(d[1][0], value)):
+                return f"text {text!r} placed at offset {len(pre)} (after {pre!r}): deserialize yields {d!r} instead of ({len(text)}, [value])"
+        st, r2 = self.meth(comb, "serialize", env, [None, value], 1)
+        if st != "ok" or r2 != r:
+            return f"serialize of the value at position 1 of the value list gives {r2!r}, at position 0 it gives {r!r}"
         return None
 
 
